@@ -16,9 +16,14 @@ fn main() {
     // keep stderr readable: print one line per panic, the full message only for harness code.
     std::panic::set_hook(Box::new(|info| {
         let loc = info.location().map(|l| format!("{}:{}", l.file(), l.line())).unwrap_or_default();
-        if let Ok(mut g) = crate::core::LAST_PANIC.lock() {
-            *g = loc.clone();
-        }
+        let msg = if let Some(s) = info.payload().downcast_ref::<String>() {
+            s.clone()
+        } else if let Some(s) = info.payload().downcast_ref::<&str>() {
+            s.to_string()
+        } else {
+            "panic".to_string()
+        };
+        crate::core::note_panic(&msg, &loc);
         if loc.contains("e_query/") || loc.contains("vmon/") {
             eprintln!("HARNESS-PANIC at {loc}: {info}");
         } else if std::env::var("VERIF_SHOW_PANICS").is_ok() {
